@@ -1,9 +1,10 @@
-/* A small model of the POSIX calls made by clock-bound-shm's reader (open/read/mmap/munmap/close,
+/* A small model of the POSIX calls made by clock-bound-shm's reader (open/read/fstat/mmap/munmap/close,
  * errno), linked into the Kani run with `-Z c-ffi --c-lib`.  The real Rust code, including its FFI
  * calls through the libc crate, runs against this model.  ASSUMED contract on the OS (listed in the
  * evidence): one file of verif_file_len (0..96) bytes; it may be missing (open fails), be a directory
  * (read fails) or fail to map; a successful mmap yields one page of memory showing the file's (modelled) bytes followed by zeros; the mapping of an EMPTY file has no accessible page (any access = SIGBUS, modelled as an out-of-bounds pointer).  Ghost counters record descriptor / mapping ownership. */
 #include <stddef.h>
+#include <sys/stat.h>
 
 #define MODEL_MAX 96   /* maximum file length */
 #define MODEL_CONTENT 24 /* bytes of content that are modelled; the rest of the file reads as 0 */
@@ -30,6 +31,16 @@ int open(const char *path, int flags, ...) {
   if (verif_missing) return -1;
   verif_open_fds++;
   return MODEL_FD;
+}
+
+/* fstat: length and kind of the one modelled file (not called by the code as it stands; modelled so that a
+ * change that starts using it is decided on the model instead of ending "undecided") */
+int fstat(int fd, struct stat *st) {
+  if (fd != MODEL_FD) verif_bad_arg = 1;
+  __builtin_memset(st, 0, sizeof *st);
+  st->st_size = (long)verif_file_len;
+  st->st_mode = verif_is_dir ? S_IFDIR : S_IFREG;
+  return 0;
 }
 
 int close(int fd) {
